@@ -64,6 +64,14 @@ def workload():
             cases.append(('chain-%d-%d' % (k, rep_i), 'html_token', dict(a_text=versions[k], b_text=versions[k + 1], include='all')))
         cases.append(('chain-links-%d' % k, 'links_json', dict(a_text=versions[k], b_text=versions[k + 1])))
         cases.append(('chain-text-%d' % k, 'html_text_dmp', dict(a_text=versions[k], b_text=versions[k + 1])))
+    # element names that have the name of a separable tag as a prefix (p: pre, picture, param, progress; li: link, listing): how
+    # such tags are classified must not depend on the iteration order of a set of names
+    fam = ('<div><pre>code %s here</pre><p>para %s</p><picture><source srcset="s.webp"><img src="i.png"></picture> text %s <progress value="1"></progress> '
+           '<object data="o"><param name="a" value="b">obj %s</object><listing>lst %s</listing><ul><li>x %s</li></ul><pre>tail</pre></div>')
+    fam_a, fam_b = fam % ('one', 'one', 'one', 'one', 'one', 'one'), fam % ('two', 'one more', 'two', 'two', 'two', 'two')
+    cases.append(('prefix-family', 'html_token', dict(a_text=fam_a, b_text=fam_b, include='all')))
+    cases.append(('prefix-family-rev', 'html_token', dict(a_text=fam_b, b_text=fam_a, include='all')))
+    cases.append(('prefix-family-pre', 'html_token', dict(a_text='<p>intro</p><pre>line one\nline two</pre><p>end</p>', b_text='<p>intro now</p><pre>line 1\nline two</pre><p>the end</p>', include='all')))
     cases.append(('chain-back', 'html_token', dict(a_text=versions[2], b_text=versions[0], include='all')))
     for i, (a, b) in enumerate(link_pairs):
         hdr = headers[i % 3]
@@ -147,9 +155,37 @@ def pin_native_diff_locale():
     bd.diff = pinned
 
 
+def no_native_diff_deadline():
+    """Attribution aid for the listed finding C17-dmp-deadline: runs the native diff-match-patch call of compute_dmp_diff (and only
+    that call) without its wall-clock deadline.  A result that differs between runs and becomes stable with this switch depends on
+    elapsed time through that call site; anything else that differs between runs still shows."""
+    import web_monitoring_diff.basic_diffs as bd
+    native = bd.diff
+
+    def unlimited(*args, **kwargs):
+        kwargs['timelimit'] = 0
+        return native(*args, **kwargs)
+    bd.diff = unlimited
+
+
+def deadline_texts(n):
+    """The listed input of C17-dmp-deadline: two fixed pseudo-random texts of n words."""
+    import random
+    rnd = random.Random(1)
+    words = [''.join(rnd.choice('abcdefghij') for _ in range(rnd.randint(2, 7))) for _ in range(3000)]
+    return tuple(' '.join(random.Random(seed).choice(words) for _ in range(n)) for seed in (1, 2))
+
+
 def main():
     if os.environ.get('WMD_VERIF_PIN_DMP_LOCALE'):
         pin_native_diff_locale()
+    if os.environ.get('WMD_VERIF_NO_DMP_DEADLINE'):
+        no_native_diff_deadline()
+    if len(sys.argv) > 1 and sys.argv[1] == 'deadline':     # purity_worker.py deadline <n words>: the listed input, one call
+        a, b = deadline_texts(int(sys.argv[2]))
+        cid, d, ok = run_case(('one', 'html_source_dmp', {'a_text': a, 'b_text': b}))
+        print(json.dumps({'digests': {cid: d}}))
+        return
     if len(sys.argv) > 1 and sys.argv[1] == 'one':          # one call: purity_worker.py one <route> <json kwargs>
         cid, d, ok = run_case(('one', sys.argv[2], json.loads(sys.argv[3])))
         print(json.dumps({'digests': {cid: d}}))
